@@ -312,3 +312,6 @@ OUTSIDE = ["files outside the structural family (longer records, more runs, othe
            "the byte content is concrete per path: effects of particular residues other than 'is ACGT-class or not' are covered only for the enumerated symbols"]
 TRUSTED = ["CrossHair/z3 for the symbolic buffer size", "FakeFile stands for pathlib.Path (name, absolute(), open('rb') returning the bytes)",
            "io.BytesIO line iteration and tell() (CPython)", "the shape parameters are realised (exhaustively branched), not kept symbolic"]
+
+TECHNIQUE = ("CrossHair + z3: the real index_fasta_file with an UNBOUNDED symbolic buffer size over a structural family of files enumerated through the path tree; random access with all-symbolic geometry")
+LEVEL_TEXT = ("Every buffer size >= 1 is decided per file shape (the flush decisions are the only use of the buffer size); the file family is enumerated exhaustively by branching on small shape parameters.")
